@@ -1147,6 +1147,7 @@ func genS5(hiddenSeed int) S5 {
 func runC08(r *Run) {
 	c08OddTagNames(r)
 	c08HiddenRows(r)
+	c08ZeroArrays(r)
 	r.Rule = "pairs of data equal on visible fields and different in the contents of `-`-tagged and unexported fields (strings, slices, maps, nested structs; nested in structs, pointers, slices and maps), generated from one visible seed and two hidden seeds; expressions from the generic generator against the first datum plus a family naming hidden fields by Go name, tag name, through containers and quantifiers, under the default and the alternate tag name; predicate on the implementation: identical Evaluate outcomes and identical Filter selections for the pair; a selector naming a hidden field never resolves to its content; a renamed field is reachable only under its tag name; both evaluations also compared with the model; distinct = (expression shape, tag, outcome)"
 	n := 1200
 	if r.Tier == "thorough" {
@@ -1375,6 +1376,21 @@ func filterKept(f *bexpr.Filter, data interface{}) (out string) {
 	}()
 	res, err := f.Execute(data)
 	if err != nil {
+		if res != nil {
+			// the documented result beside an error is nil; whatever comes instead is part of the outcome
+			out := "err-with-result:" + reflect.TypeOf(res).String()
+			if rv := reflect.ValueOf(res); rv.Kind() == reflect.Map {
+				var ks []string
+				for _, k := range rv.MapKeys() {
+					ks = append(ks, keyText(k))
+				}
+				sortStrings(ks)
+				out += " keys:" + strings.Join(ks, ",")
+			} else if rv.Kind() == reflect.Slice || rv.Kind() == reflect.Array {
+				out += fmt.Sprintf(" len:%d", rv.Len())
+			}
+			return out
+		}
 		return "err"
 	}
 	rv := reflect.ValueOf(res)
@@ -1424,6 +1440,8 @@ func runC14(r *Run) {
 	}
 	c14OddMaps(r, reps)
 	c14ReplacedInPlace(r)
+	c14TypedMaps(r, 40)
+	c14ReentrantHook(r)
 	sameTypeDifferentShape(r, "order-dependent-evaluate")
 	c14RepeatedCreation(r, reps)
 	bodies := []string{"any m as _, v { v.x == 1 }", "all m as _, v { v.x == 1 }", "any m as k, v { v.x == 1 and k != zz }", "all m as k, v { v.x != 1 or k == a }", "any m as k { k == b }",
